@@ -13,8 +13,9 @@ import (
 )
 
 type keyState struct {
-	id   *Term // 8-bit key identity
-	priv bool
+	id     *Term // 8-bit key identity
+	priv   bool
+	hashed bool // RSA/ECDSA-like: the peer ID is a hash of the key and does not embed it
 }
 
 type signRec struct {
@@ -25,7 +26,11 @@ type signRec struct {
 const sigLen = 2
 
 func (ex *Exec) mkKey(id *Term, priv bool) Value {
-	ks := &keyState{id: id, priv: priv}
+	return ex.mkKeyKind(id, priv, false)
+}
+
+func (ex *Exec) mkKeyKind(id *Term, priv, hashed bool) Value {
+	ks := &keyState{id: id, priv: priv, hashed: hashed}
 	kind := "crypto.PubKey"
 	if priv {
 		kind = "crypto.PrivKey"
@@ -49,7 +54,7 @@ func (ex *Exec) mkKey(id *Term, priv bool) Value {
 		},
 	}
 	if priv {
-		o.methods["GetPublic"] = func(ex *Exec, args []Value) Value { return ex.mkKey(id, false) }
+		o.methods["GetPublic"] = func(ex *Exec, args []Value) Value { return ex.mkKeyKind(id, false, hashed) }
 		o.methods["Sign"] = func(ex *Exec, args []Value) Value {
 			msg := termsOf(args[0])
 			all := append([]*Term{id}, msg...)
@@ -97,6 +102,22 @@ func peerIDOfKey(id *Term) Value {
 	return mkStr([]*Term{byteConst(0), byteConst(1), id})
 }
 
+// peerIDOfHashedKey: sha2-256 multihash {0x12, 0x20, id, 0x5a x 31}: does not embed the key
+func peerIDOfHashedKey(id *Term) Value {
+	bs := []*Term{byteConst(0x12), byteConst(0x20), id}
+	for i := 0; i < 31; i++ {
+		bs = append(bs, byteConst(0x5a))
+	}
+	return mkStr(bs)
+}
+
+func peerIDOf(ks *keyState) Value {
+	if ks.hashed {
+		return peerIDOfHashedKey(ks.id)
+	}
+	return peerIDOfKey(ks.id)
+}
+
 func init() {
 	extraIntrinsics = append(extraIntrinsics, func(p *Program) {
 		const lp = "github.com/libp2p/go-libp2p/core"
@@ -109,16 +130,28 @@ func init() {
 		p.reg(lp+"/crypto.GenerateKeyPair", gen)
 		p.reg(lp+"/crypto.GenerateKeyPairWithReader", gen)
 		p.reg(lp+"/crypto.GenerateSecp256k1Key", gen)
-		p.reg(lp+"/crypto.GenerateECDSAKeyPair", gen)
+		genHashed := func(ex *Exec, fr *Frame, args []Value) Value {
+			ex.nkeys++
+			id := mkConst(8, uint64(ex.nkeys))
+			return Tuple{ex.mkKeyKind(id, true, true), ex.mkKeyKind(id, false, true), Iface{}}
+		}
+		p.reg(lp+"/crypto.GenerateECDSAKeyPair", genHashed)
+		p.reg(lp+"/crypto.GenerateRSAKeyPair", genHashed)
 		p.reg(lp+"/crypto.MarshalPublicKey", func(ex *Exec, fr *Frame, args []Value) Value {
 			ks := keyOf(ex, args[0])
 			if ks == nil {
 				return Tuple{[]Value(nil), ex.newErrorString("model: nil public key")}
 			}
+			if ks.hashed {
+				return Tuple{[]Value{ks.id, byteConst(0xec)}, Iface{}}
+			}
 			return Tuple{[]Value{ks.id}, Iface{}}
 		})
 		p.reg(lp+"/crypto.UnmarshalPublicKey", func(ex *Exec, fr *Frame, args []Value) Value {
 			b := termsOf(args[0])
+			if len(b) == 2 && b[1].IsConst() && b[1].val == 0xec {
+				return Tuple{ex.mkKeyKind(b[0], false, true), Iface{}}
+			}
 			if len(b) != 1 {
 				return Tuple{Iface{}, ex.newErrorString("model: malformed public key")}
 			}
@@ -129,14 +162,20 @@ func init() {
 			if ks == nil {
 				return Tuple{"", ex.newErrorString("model: nil key")}
 			}
-			return Tuple{peerIDOfKey(ks.id), Iface{}}
+			return Tuple{peerIDOf(ks), Iface{}}
 		}
 		p.reg(lp+"/peer.IDFromPublicKey", idFromPub)
 		p.reg(lp+"/peer.IDFromPrivateKey", idFromPub)
 		p.reg("("+lp+"/peer.ID).ExtractPublicKey", func(ex *Exec, fr *Frame, args []Value) Value {
 			bs := strBytes(args[0])
 			if len(bs) != 3 {
-				return Tuple{Iface{}, ex.newErrorString("model: peer ID does not embed a key")}
+				// hashed IDs do not embed the key: the documented peer.ErrNoPublicKey
+				if g := ex.p.prog.ImportedPackage(lp + "/peer"); g != nil {
+					if v := g.Var("ErrNoPublicKey"); v != nil {
+						return Tuple{Iface{}, *ex.globalAddr(v)}
+					}
+				}
+				return Tuple{Iface{}, ex.newErrorString("public key is not embedded in peer ID")}
 			}
 			ok := mkAnd(mkEq(bs[0], byteConst(0)), mkEq(bs[1], byteConst(1)))
 			if !ex.branch(ok, "extract-key") {
@@ -149,7 +188,7 @@ func init() {
 			if ks == nil {
 				return tFalse
 			}
-			return ex.equals(types.Typ[types.String], args[0], peerIDOfKey(ks.id))
+			return ex.equals(types.Typ[types.String], args[0], peerIDOf(ks))
 		})
 		// peer.ID text form: model = "1" + lowercase hex (injective); Decode is its inverse
 		p.reg("("+lp+"/peer.ID).String", func(ex *Exec, fr *Frame, args []Value) Value {
@@ -209,6 +248,11 @@ func init() {
 			}
 			var out []*Term
 			out = append(out, ks.id)
+			if ks.hashed {
+				out = append(out, byteConst(1))
+			} else {
+				out = append(out, byteConst(0))
+			}
 			for _, f := range []Value{e[1], e[2], e[3]} {
 				bs := termsOf(f)
 				if len(bs) > 250 {
@@ -224,10 +268,14 @@ func init() {
 			bad := func(msg string) Value {
 				return Tuple{(*Value)(nil), ex.newErrorString("model envelope: " + msg)}
 			}
-			if len(data) < 1 {
+			if len(data) < 2 {
 				return bad("empty")
 			}
-			pos := 1
+			if !ex.branch(mkCmp(OpULe, data[1], byteConst(1)), "envelope-keykind") {
+				return bad("unknown key type")
+			}
+			hashedKey := ex.branch(mkEq(data[1], byteConst(1)), "envelope-keykind-hashed")
+			pos := 2
 			var fields [3][]*Term
 			for i := 0; i < 3; i++ {
 				if pos >= len(data) {
@@ -248,7 +296,7 @@ func init() {
 			}
 			et := ex.p.namedType(lp+"/record", "Envelope")
 			env := zero(et).(Struct)
-			env[0] = ex.mkKey(data[0], false)
+			env[0] = ex.mkKeyKind(data[0], false, hashedKey)
 			env[1] = termsToValues(fields[0])
 			env[2] = termsToValues(fields[1])
 			env[3] = termsToValues(fields[2])
